@@ -91,7 +91,7 @@ func runC04(c *Ctx, r *Rec) {
 		if f == qr.mutexF {
 			continue
 		}
-		construct := "collection." + qr.q.Obj().Name() + "." + f.Name()
+		construct := "collection.QueueLike/" + qr.roleOf(f)
 		written := len(fw[f.Origin()]) > 0
 		needs := written || isCollectionLike(f.Type())
 		if !needs {
@@ -141,8 +141,8 @@ func runC04(c *Ctx, r *Rec) {
 		checkLockPairing(c, r, "D2-lock-pairing", info, ms[name], ms[name].Body, mkey, qr.mutexF.Name())
 	}
 	checkNoBlockingUnderLock(c, r, "D3-no-blocking-under-lock", qr)
-	r.floor("D2-lock-pairing", 3)
-	r.floor("D3-no-blocking-under-lock", 3)
+	r.floor("D2-lock-pairing", 1)
+	r.floor("D3-no-blocking-under-lock", 1)
 
 	// ---- D4 publish order
 	if fd := ms["AddValue"]; fd != nil {
@@ -248,7 +248,12 @@ func runC04(c *Ctx, r *Rec) {
 					}
 					return true
 				})
-				if resObj != nil {
+				if resObj != nil && len(recvs) == 1 {
+					if lhs, _, ok := multiDef(recvs[0].Inner); ok && len(lhs) == 2 && identObj(info, lhs[0]) == resObj {
+						separate = fmt.Sprintf("the value delivered is the one received from the channel while the value list is shortened separately at %s: with two producers the order of the sends can differ from the order of the appends, so the value removed from the list is not the value delivered and the array view disagrees with the delivery order", c.pos(removes[0].Outer.Pos()))
+					}
+				}
+				if resObj != nil && separate == "" {
 					ast.Inspect(fd.Body, func(x ast.Node) bool {
 						var rhs ast.Expr
 						if lhs, r0, ok := multiDef(x); ok && len(lhs) == 1 && identObj(info, lhs[0]) == resObj {
@@ -324,6 +329,8 @@ func runC04(c *Ctx, r *Rec) {
 		}
 	}
 	r.floor("D4-publish-order", 2)
+	checkCloseGuard(c, r, "D4-close-guard", qr)
+	checkTokenBalanceAtBirth(c, r, "D5-token-balance", qr)
 
 	// ---- D5 capacity agreement
 	cms := c.methodsOf(qr.cls)
@@ -451,7 +458,7 @@ func runC05(c *Ctx, r *Rec) {
 	fw := c.fieldWrites()
 
 	// ---- D1 stable rendez-vous
-	construct := "collection." + qr.q.Obj().Name() + "." + qr.chanF.Name()
+	construct := "collection.QueueLike/" + qr.roleOf(qr.chanF)
 	if ws := fw[qr.chanF.Origin()]; len(ws) > 0 {
 		var where []string
 		for _, w := range ws {
@@ -469,8 +476,20 @@ func runC05(c *Ctx, r *Rec) {
 	for _, name := range sortedKeys(ms) {
 		checkLockPairing(c, r, "D4-lock-released", info, ms[name], ms[name].Body, objKey(qr.mutexF), qr.mutexF.Name())
 	}
-	r.floor("D4-lock-released", 3)
+	r.floor("D4-lock-released", 1)
 	checkNoBlockingUnderLock(c, r, "D4-no-wait-under-lock", qr)
+	checkTokenBalanceAtBirth(c, r, "D2-token-balance", qr)
+	// outputs of the plumbing helpers are closed when the input is (parked consumers are released)
+	{
+		tmp := newRec(r.Property)
+		runC06(c, tmp)
+		for _, o := range tmp.Obls {
+			if o.Rule == "D2-closure-propagation" {
+				o.Rule = "D5-outputs-closed"
+				r.Obls = append(r.Obls, o)
+			}
+		}
+	}
 
 	// ---- D2 no self-fill
 	nsites := 0
@@ -481,7 +500,6 @@ func runC05(c *Ctx, r *Rec) {
 		}
 	}
 	r.count("queue-creating functions with a fill loop", nsites)
-	r.floor("D2-no-self-fill", 1)
 
 	// ---- D3 close wakes consumers
 	closeFD, remFD := ms["CloseQueue"], ms["RemoveHead"]
@@ -491,40 +509,8 @@ func runC05(c *Ctx, r *Rec) {
 		cevs := qr.events(c, info, closeFD)
 		closes := len(eventsOf(cevs, "close")) > 0
 		r.check(closes, "D3-close-wakes", c.fdName(closeFD), c.pos(closeFD.Pos()), "closes the queue's own token channel", "CloseQueue does not close the channel field that RemoveHead receives from: parked consumers are never released")
-		// a close guarded by a state field: whoever installs a new (open) channel must reset that field
 		if closes {
-			cg := newFG(info, closeFD.Body)
-			for _, ce := range eventsOf(qr.directEvents(info, closeFD), "close") {
-				pt, ok := cg.locate(ce.Outer)
-				if !ok {
-					continue
-				}
-				for _, ec := range cg.edgeConds(pt) {
-					var guard *types.Var
-					ast.Inspect(ec.cond, func(x ast.Node) bool {
-						if se, ok := x.(*ast.SelectorExpr); ok && isObj(info, se.X, recvObj(info, closeFD)) {
-							if f := selectorField(info, se); f != nil {
-								guard = f
-							}
-						}
-						return true
-					})
-					if guard == nil {
-						continue
-					}
-					for _, w := range fw[qr.chanF.Origin()] {
-						resets := false
-						for _, gw := range fw[guard.Origin()] {
-							if gw.In == w.In {
-								resets = true
-							}
-						}
-						r.check(resets, "D3-close-wakes", c.fdName(closeFD)+"/guard:"+guard.Name()+"/"+w.In.Name.Name, c.pos(w.Pos),
-							"the method that installs a new channel also resets the field that guards the close",
-							fmt.Sprintf("CloseQueue closes the channel only under a condition on %s, and %s installs a new open channel without resetting %s: a later CloseQueue is skipped and consumers parked on the new channel are never released", guard.Name(), w.In.Name.Name, guard.Name()))
-					}
-				}
-			}
+			checkCloseGuard(c, r, "D3-close-wakes", qr)
 		}
 		revs := qr.events(c, info, remFD)
 		switch {
@@ -695,6 +681,29 @@ func stmtsBeforeLoops(list []ast.Stmt) []ast.Stmt {
 
 // ---------------------------------------------------------------- queue events (alias- and helper-aware)
 
+// roleOf names a field of the queue by what it is for (private field names may change).
+func (qr *queueRoles) roleOf(f *types.Var) string {
+	switch f {
+	case qr.chanF:
+		return "token-channel"
+	case qr.capF:
+		return "capacity"
+	case qr.listF:
+		return "value-list"
+	case qr.mutexF:
+		return "mutex"
+	}
+	if isClassField(f) {
+		return "class"
+	}
+	return "field:" + f.Name()
+}
+
+func isClassField(f *types.Var) bool {
+	ms := ifaceMethodNames(f.Type())
+	return ms["Notation"] || ms["Make"]
+}
+
 // qField: the queue field an expression denotes: X.f directly, or a local variable whose single
 // definition is X.f (var channel = v.available_).
 func qField(info *types.Info, fd *ast.FuncDecl, e ast.Expr) *types.Var {
@@ -726,8 +735,37 @@ type qEvent struct {
 
 // directEvents lists the queue events written in fd itself.
 func (qr *queueRoles) directEvents(info *types.Info, fd *ast.FuncDecl) []qEvent {
-	var out []qEvent
+	out := qr.eventsIn(info, fd, fd.Body, nil)
+	// function literals that are arguments of an ordinary call (v.exclusively(func() {...})) run
+	// before the call returns: their events count as events of that call
 	inspectNoLit(fd.Body, func(x ast.Node) bool {
+		call, ok := x.(*ast.CallExpr)
+		if !ok {
+			return true
+		}
+		for _, a := range call.Args {
+			if fl, ok := ast.Unparen(a).(*ast.FuncLit); ok {
+				out = append(out, qr.eventsIn(info, fd, fl.Body, call)...)
+			}
+		}
+		return true
+	})
+	return out
+}
+
+// eventsIn lists the events written in body; outer, when given, replaces the event's own node
+// as the node of fd's control-flow graph.
+func (qr *queueRoles) eventsIn(info *types.Info, fd *ast.FuncDecl, body ast.Node, outer ast.Node) []qEvent {
+	var out []qEvent
+	defer func() {
+		if outer != nil {
+			for i := range out {
+				out[i].Outer = outer
+				out[i].Ok = nil
+			}
+		}
+	}()
+	inspectNoLit(body, func(x ast.Node) bool {
 		switch s := x.(type) {
 		case *ast.SendStmt:
 			if qField(info, fd, s.Chan) == qr.chanF {
@@ -916,4 +954,120 @@ func hasOpaque(l *Lin) bool {
 		}
 	}
 	return false
+}
+
+// checkCloseGuard: a close of the token channel that is guarded by a state field needs every
+// method that installs a new (open) channel to reset that field.
+func checkCloseGuard(c *Ctx, r *Rec, rule string, qr *queueRoles) {
+	info := c.info("collection")
+	ms := c.methodsOf(qr.q)
+	closeFD := ms["CloseQueue"]
+	if closeFD == nil {
+		return
+	}
+	fw := c.fieldWrites()
+	cg := newFG(info, closeFD.Body)
+	for _, ce := range eventsOf(qr.directEvents(info, closeFD), "close") {
+		pt, ok := cg.locate(ce.Outer)
+		if !ok {
+			continue
+		}
+		for _, ec := range cg.edgeConds(pt) {
+			var guard *types.Var
+			ast.Inspect(ec.cond, func(x ast.Node) bool {
+				if se, ok := x.(*ast.SelectorExpr); ok && isObj(info, se.X, recvObj(info, closeFD)) {
+					if f := selectorField(info, se); f != nil {
+						guard = f
+					}
+				}
+				return true
+			})
+			if guard == nil {
+				continue
+			}
+			for _, w := range fw[qr.chanF.Origin()] {
+				resets := false
+				for _, gw := range fw[guard.Origin()] {
+					if gw.In == w.In {
+						resets = true
+					}
+				}
+				r.check(resets, rule, c.fdName(closeFD)+"/guard:"+guard.Name()+"/"+w.In.Name.Name, c.pos(w.Pos),
+					"the method that installs a new channel also resets the field that guards the close",
+					fmt.Sprintf("CloseQueue closes the channel only under a condition on %s, and %s installs a new open channel without resetting %s: a later CloseQueue is skipped and consumers parked on the new channel are never released", guard.Name(), w.In.Name.Name, guard.Name()))
+			}
+		}
+	}
+}
+
+// checkTokenBalanceAtBirth: a constructor that fills the value list itself and preloads the
+// tokens with a counting loop must send exactly as many tokens as the list holds.
+func checkTokenBalanceAtBirth(c *Ctx, r *Rec, rule string, qr *queueRoles) {
+	info := c.info("collection")
+	cms := c.methodsOf(qr.cls)
+	for _, name := range sortedKeys(cms) {
+		fd := cms[name]
+		// counting loops whose body sends on a channel (the token channel of the queue under construction)
+		for li, loop := range loopsIn(fd.Body) {
+			fs, ok := loop.(*ast.ForStmt)
+			if !ok || fs.Cond == nil || fs.Init == nil || fs.Post == nil {
+				continue
+			}
+			sends := false
+			inspectNoLit(fs.Body, func(x ast.Node) bool {
+				if ss, ok := x.(*ast.SendStmt); ok {
+					if t, ok := info.TypeOf(ss.Chan).Underlying().(*types.Chan); ok && types.Identical(t.Elem(), qr.chanF.Type().Underlying().(*types.Chan).Elem()) {
+						sends = true
+					}
+				}
+				return true
+			})
+			if !sends {
+				continue
+			}
+			construct := fmt.Sprintf("%s/token-preload#%d", c.fdName(fd), li+1)
+			be, ok := ast.Unparen(fs.Cond).(*ast.BinaryExpr)
+			as, ok2 := fs.Init.(*ast.AssignStmt)
+			inc, ok3 := fs.Post.(*ast.IncDecStmt)
+			if !ok || !ok2 || !ok3 || inc.Tok != token.INC || len(as.Lhs) != 1 || len(as.Rhs) != 1 || (be.Op != token.LSS && be.Op != token.LEQ) || identObj(info, be.X) == nil || identObj(info, be.X) != identObj(info, as.Lhs[0]) {
+				r.skip(rule, construct, c.pos(fs.Pos()), "not a plain counting loop")
+				continue
+			}
+			env := &symEnv{info: info}
+			tracker := newSizeTracker(info, fd, env, nil)
+			var verdict string
+			done := false
+			prev := env.onLoop
+			env.onLoop = func(st *symState, l ast.Stmt) {
+				if l == ast.Stmt(fs) && !done {
+					done = true
+					start := env.eval(st, as.Rhs[0])
+					bound := env.eval(st, be.Y)
+					if start.Lin == nil || bound.Lin == nil {
+						verdict = "skip: the loop bounds are not integer forms"
+					} else {
+						trips := bound.Lin.sub(start.Lin)
+						if be.Op == token.LEQ {
+							trips = trips.plus(1)
+						}
+						full := append(append(Cube{}, env.base...), st.cube...)
+						// the number of values the new queue holds: n (the size of the caller's input)
+						if !entailsCube(full, or(eq(trips, tracker.n), and(le(tracker.n, k(0)), le(trips, k(0))))) {
+							verdict = fmt.Sprintf("the loop sends %v tokens for the %v initial values: RemoveHead finds a different number of tokens than the list has values (the last value is never delivered, or a token without a value is delivered)", trips, tracker.n)
+						}
+					}
+				}
+				if prev != nil {
+					prev(st, l)
+				}
+			}
+			symRun(env, fd.Body)
+			switch {
+			case !done:
+				r.skip(rule, construct, c.pos(fs.Pos()), "the loop was not reached by the interpreter")
+			default:
+				r.verdict(rule, construct, c.pos(fs.Pos()), "one token per initial value", verdict)
+			}
+		}
+	}
 }
